@@ -78,7 +78,11 @@ func BridgeAddress(bridgeID uint64) []byte {
 // paired, an odd last node paired with itself.
 type Tree struct{ Levels [][][32]byte }
 
-func BuildTree(leaves [][32]byte) *Tree {
+func BuildTree(leaves [][32]byte) *Tree { return BuildTreeWith(leaves, Node) }
+
+// BuildTreeWith builds the same tree shape with a caller-supplied node function (used to build the
+// tree a prover running the repository's own helpers would build).
+func BuildTreeWith(leaves [][32]byte, node func(a, b []byte) [32]byte) *Tree {
 	t := &Tree{}
 	cur := append([][32]byte{}, leaves...)
 	t.Levels = append(t.Levels, cur)
@@ -89,7 +93,7 @@ func BuildTree(leaves [][32]byte) *Tree {
 			if j >= len(cur) {
 				j = i
 			}
-			next = append(next, Node(cur[i][:], cur[j][:]))
+			next = append(next, node(cur[i][:], cur[j][:]))
 		}
 		t.Levels = append(t.Levels, next)
 		cur = next
